@@ -407,7 +407,7 @@ func parseRule(node *yaml.Node, offsetLine, offsetColumn int, contentLines []str
 		{key: forKey, part: forNode},
 		{key: keepFiringForKey, part: keepFiringForNode},
 	} {
-		if entry.part != nil && !isTag(entry.part.ShortTag(), strTag) {
+		if entry.part != nil && (!isTag(entry.part.ShortTag(), strTag) || kindMismatch(entry.part, yaml.ScalarNode)) {
 			return invalidValueError(lines, entry.part.Line+offsetLine, entry.key, describeTag(strTag), describeTag(entry.part.ShortTag()))
 		}
 	}
@@ -433,7 +433,7 @@ func parseRule(node *yaml.Node, offsetLine, offsetColumn int, contentLines []str
 		{key: labelsKey, part: labelsNode},
 		{key: annotationsKey, part: annotationsNode},
 	} {
-		if entry.part != nil && !isTag(entry.part.ShortTag(), mapTag) {
+		if entry.part != nil && (!isTag(entry.part.ShortTag(), mapTag) || kindMismatch(entry.part, yaml.MappingNode)) {
 			return invalidValueError(lines, entry.part.Line+offsetLine, entry.key, describeTag(mapTag), describeTag(entry.part.ShortTag()))
 		}
 	}
@@ -844,7 +844,7 @@ func offsetLineRange(lr diags.LineRange, offsetLine int) diags.LineRange {
 func validateStringMap(field string, nodes []yamlMap, offsetLine int, lines diags.LineRange) (bool, ParseError, diags.LineRange) {
 	names := map[string]struct{}{}
 	for _, entry := range nodes {
-		if !isTag(entry.val.ShortTag(), strTag) {
+		if !isTag(entry.val.ShortTag(), strTag) || kindMismatch(entry.val, yaml.ScalarNode) {
 			return false, ParseError{
 				Line: entry.val.Line + offsetLine,
 				Err:  fmt.Errorf("%s %s value must be a %s, got %s instead", field, entry.key.Value, describeTag(strTag), describeTag(entry.val.ShortTag())),
